@@ -18,6 +18,6 @@ _imp('vtmf_cs', 'h_imp_vtmf_cs', 'crs|1x|', ['VTMF_CardSecret.cc'])
 _imp('tmcg_card', 'h_imp_tmcg_card', 'crd|2|1|3|4|', ['TMCG_Card.cc'], symq=[], symt=range(8, 12))
 _imp('tmcg_cs', 'h_imp_tmcg_cs', 'crs|2|1|3|1|4|0|', ['TMCG_CardSecret.cc'], symq=[], symt=range(8, 16), in_tiers=('thorough',))
 # stacks: a damaged byte in the header (magic, size) makes the container shape symbolic: out of memory at 6 GB; positions inside the cards fit
-_imp('stack', 'h_imp_stack', 'stk^2^crd|5|7|^crd|1|2|^', ['VTMF_Card.cc'], symq=[6, 15], symt=range(6, 24), trq=4)
+_imp('stack', 'h_imp_stack', 'stk^2^crd|5|7|^crd|1|2|^', ['VTMF_Card.cc'], symq=[], symt=range(6, 24), trq=4)
 _imp('stacksecret', 'h_imp_stacksecret', 'sts^2^1^crs|5|^0^crs|7|^', ['VTMF_CardSecret.cc'], symq=[], symt=range(6, 24), trq=4, in_tiers=('thorough',))
 _imp('vtmf_card_stream', 'h_imp_vtmf_card_stream', 'crd|5|1x|', ['VTMF_Card.cc'])
